@@ -21,7 +21,8 @@ RULE = (
     "register()/evaluate() hand-over is checked with exact integer arithmetic; the "
     "FEA frequency table is allocated by a simulator-owned allocator with a guard "
     "band. Non-trivial = at least two moves were applied to the shared tour; "
-    "distinct = distinct scenario-document digests.")
+    "distinct = distinct scenario-document digests."
+    " Runs of a scenario may be simultaneous solve() calls in real threads released at should_terminate() polls by the scenario's schedule; the caller may re-use the matrix buffer it handed to the Instance constructor, offer arrays derived from an instance, or enter solve() on a process whose budget a first stage used up.")
 COMPONENTS = {
     "real": ["TSPEA1p1revn.solve + rev_if_not_worse (njit)",
              "TSPFEA1p1revn.solve + rev_if_h_not_worse (njit)",
